@@ -116,6 +116,39 @@ def exit_rule(ctx, facts):
     return n
 
 
+def finish_rule(ctx, facts):
+    """FINISH: whatever hash_set returns is what create_signature computes from the store for the whole input: the tail (and any
+    `return`) is `self.min_store.create_signature(data)` with the data parameter itself. A shortcut that builds the signature
+    another way (a hash of the whole slice for a minimal-length input ..) can never collide with a signature built from the store."""
+    from ..rulelib import resolver_of
+    fid = POM + "hash_set"
+    fn = facts.fn(fid)
+    R = resolver_of(fn)
+    ctx.rule("FINISH", "every value returned by ProbOrdMinHash2::hash_set is self.min_store.create_signature(data) for the data parameter "
+                       "itself: no other way of producing a signature exists beside the store's")
+    dname = hirq.show_pat(fn["params"][1]["pat"]) if len(fn.get("params", [])) > 1 else "data"
+    outs = []
+    body = fn["hir"]
+    if body["k"] == "Block" and "expr" in body:
+        outs.append(body["expr"])
+    outs += [x["e"] for x in user_nodes(fn) if x["k"] == "Ret" and "e" in x]
+    if not outs:
+        ctx.violation("FINISH", fid, "cannot-establish: returned value", hirq.loc(fn), "hash_set has no tail expression and no `return e`")
+        return
+    for e in outs:
+        e0 = nf.strip(e)
+        for _ in range(4):
+            if e0["k"] == "Path" and "local" in e0["res"] and R.lookup(e0["res"]["local"], e0) is not None:
+                e0 = nf.strip(R.lookup(e0["res"]["local"], e0))
+        good = e0["k"] == "MethodCall" and e0["name"] == "create_signature" and nf.nf(e0["recv"]) == "self.min_store" and len(e0["args"]) == 1 \
+            and nf.nf(e0["args"][0]) == dname
+        if good:
+            ctx.ok("FINISH", fid, "returns self.min_store.create_signature(%s)" % dname, hirq.loc(e))
+        else:
+            ctx.violation("FINISH", fid, "signature built elsewhere", hirq.loc(e),
+                          "hash_set returns `%s`, not self.min_store.create_signature(%s): this signature is not comparable with the ones the store produces" % (nf.nf(e0, True)[:100], dname))
+
+
 def absorb_rule(ctx, facts):
     """ABSORB: the mixing hasher that produces the per-pair seed absorbs the element hash and the occurrence number as separate
     words (one `write_*` each, the argument a plain value): combining them first with `^`, `+`, `|` … maps distinct
@@ -490,6 +523,7 @@ def run(ctx, facts):
     s = seed_rule(ctx, facts)
     ctx.floor("C11 seeding sites", s, 1)
     absorb_rule(ctx, facts)
+    finish_rule(ctx, facts)
     occurrence_rule(ctx, facts)
     st = store_rules(ctx, facts)
     ctx.floor("C11 store writes", st, 3)
